@@ -265,7 +265,7 @@ func TestC16Tier(t *testing.T) {
 	rep := core.NewReport("C16", "tier", "model_checking")
 	maxN, maxInflight := 4, 2
 	if core.Thorough() {
-		maxN, maxInflight = 6, 3
+		maxN, maxInflight = 8, 4
 	}
 	rep.Rule = fmt.Sprintf("explicit-state BFS to a fixpoint on the real tracker.Tier (built by the real NewTier; the shuffle is owned by reading Tier.Trackers back) "+
 		"for tiers of 1..%d gated scripted members. State = (stored index read in-package, members entered by calls in flight, member/outcome of the last non-overlapped call). "+
